@@ -1517,8 +1517,9 @@ class ProvBundle(object):
             for records in records_by_type.values():
                 if len(records) > 1:
                     # more than one record having the same identifier
-                    # merge the records
-                    merged = records[0].copy()
+                    # merge the records (in a scratch bundle, so that resolving
+                    # their names does not register namespaces in this bundle)
+                    merged = ProvBundle().add_record(records[0])
                     for record in records[1:]:
                         merged.add_attributes(record.attributes)
                     # map all of them to the merged record
